@@ -64,6 +64,14 @@ def bind_repo():
     _BOUND = True
 
 
+def fresh_modules():
+    """Drop every loaded ioos_qc module so that the next use re-imports it: replays start from the
+    library's initial module state (a leak through module-level state must reproduce identically)."""
+    for m in [m for m in sys.modules if m == "ioos_qc" or m.startswith("ioos_qc.")]:
+        del sys.modules[m]
+    import ioos_qc  # noqa: F401
+
+
 def repo_file():
     import ioos_qc
 
